@@ -142,8 +142,6 @@ STOPCANCEL_SIG = {"site": "running.run_tasks",
 ABANDON_SIG = {"site": "daemons.stop_daemon",
                "shape": "a daemon that does not exit on its stopper within cancellation_timeout (default: none) is abandoned: it runs "
                         "through the cleanup activity until the hung-task stop"}
-NOCLEANUP_SIG = {"site": "running.startup_cleanup_activities",
-                 "shape": "on a cancellation of operator() the cleanup handlers are not run"}
 WITHDRAW_SIG = {"site": "peering.keepalive",
                 "shape": "a failed withdrawal (request error or no credentials) is logged and ignored: the peering record outlives the operator"}
 VAULT_SIG = {"site": "peering.keepalive",
@@ -413,9 +411,11 @@ def abstract(obs: dict, sc: dict | None = None, checker_awaits_core: bool = Fals
                 killer_stopping = True
                 put("rootStopping", "daemonKiller", root_end.get("daemonKiller") == "failed")
             continue
+        if kind == "hungEnd" and len(a) > 2 and a[2] == "failed":
+            put("hungFail")             # a hung task ended with an exception: run_tasks re-raises it as well
         if kind in ("hungTask", "hungEnd"):
             if a[0] == "other:stop-flag waiter":
-                if kind == "hungEnd":
+                if kind == "hungEnd" and not flag_set:      # (`setStopFlag` itself ends the waiter in the model)
                     put("waiterEnd")
             elif a[0] not in ("daemon",):
                 if kind == "hungTask":
@@ -727,6 +727,12 @@ def oracle(sc: dict, obs: dict) -> tuple[list[tuple[str, dict]], dict]:
                             f"not ended, its withdrawal request was {'sent' if wd_sent else 'never sent (waiting for credentials)'}; "
                             f"outcome when abandoned: {ret}", VAULT_SIG))
                 facts["noncooperative"] = True
+            elif double_cancel:
+                bad.append((f"the orchestrator, stopping its ensemble after {failures[0][2] if failures else '?'} failed at t={t0}, was "
+                            f"cancelled again at t={log[double_cancel[0]][0]} (triggers {[k for _p, _t, k in trig]}) and left its ensemble "
+                            f"orphaned; a watcher of it, cancelled as a hung task, never ends (its scheduler's helper tasks were "
+                            f"cancelled alongside): operator() still not returned at t={limit} (bound {bound} s); outcome {ret}",
+                            DOUBLE_SIG))
             elif late_daemons and ret is not None and any(log[j][1] == "hEnd" and log[j][2] == "daemon" and
                                                           (log[j][3], log[j][4]) == d[:2] and log[j][0] > limit - H_S
                                                           for d in late_daemons for j in pos["hEnd"] if j > d[2]):
@@ -830,12 +836,11 @@ def oracle(sc: dict, obs: dict) -> tuple[list[tuple[str, dict]], dict]:
                 fail("peering.keepalive", "peering record still present after exit", f"{obs.get('peering_status')}")
         # cleanup handlers run after everything else has stopped
         cl_begin = [i for i in pos["hBegin"] if log[i][2] == "cleanup"]
-        if startup_ok and cleanup_ids and not cl_begin and never_stopped:
-            pass                                    # C20-F10, reported above
-        elif startup_ok and cleanup_ids and not cl_begin and "cancel" in kinds:
-            bad.append((f"operator() was cancelled at t={[t_ for _p, t_, k in trig if k == 'cancel'][0]}: the cleanup handlers "
-                        f"{cleanup_ids} were not run (kopf's design: no graceful period on cancellation); outcome {ret}", NOCLEANUP_SIG))
+        if startup_ok and cleanup_ids and not cl_begin and (never_stopped or stop_cancelled):
+            pass                                    # C20-F10 / C20-F11, reported above under their signatures
         elif startup_ok and cleanup_ids and not cl_begin:
+            # (also after a cancellation of operator(): the startup/cleanup task swallows the first cancellation and runs the
+            #  cleanup handlers once the other root tasks are gone)
             fail("running.startup_cleanup_activities", "cleanup handlers did not run although startup had completed",
                  f"outcome {ret}")
         if cl_begin:
